@@ -197,7 +197,7 @@ int main(int argc, char** argv) {
     boundaries<long double>(R, radius);
     R.count("boundary_sets", 3);
   }
-  const long long n = A.n("random", A.thorough() ? 60000000LL : 1500000LL) / A.nshards;
+  const long long n = A.n("random", A.thorough() ? 60000000LL : 4000000LL) / A.nshards;
   if (A.get("exhaustive_float", A.thorough() ? "1" : "0") == "1") {
     all_floats(R, A);
   } else {
